@@ -18,6 +18,56 @@ os.environ.setdefault("SIBSON_VNCDOTOOL_VERIF", "1")
 
 logging.disable(logging.CRITICAL)
 
+# ----------------------------------------------------------------------------- seams that do not depend on import style
+# The code under test reaches the clock, the random source and the terminal through names it imports in whatever way its
+# authors like (`import time` / `from time import time as _now`, `os.urandom` / `from os import urandom`, ...).  A harness
+# that replaces `module.time` after the import breaks under a mere change of import style.  So, BEFORE vncdotool is imported,
+# the standard-library functions themselves are replaced by thin delegating stubs: by default they are the real thing; a hook
+# redirects them, and the clock only for callers inside the vncdotool package.
+import builtins as _builtins, getpass as _getpass_mod, time as _time_mod  # noqa: E402
+
+HOOKS = {"vclock": None,            # None, or a callable returning virtual seconds for callers inside vncdotool.loggingproxy
+         "urandom": None,           # None, or a replacement for os.urandom
+         "getpass": None, "input": None}
+PROMPT_USER, PROMPT_PW = "prompted-user", "prompted"
+_real_time, _real_strftime, _real_urandom = _time_mod.time, _time_mod.strftime, os.urandom
+
+
+def _caller_in_proxy():
+    f = sys._getframe(2)
+    return f.f_globals.get("__name__", "") == "vncdotool.loggingproxy"
+
+
+def _stub_time():
+    vc = HOOKS["vclock"]
+    return vc() if vc is not None and _caller_in_proxy() else _real_time()
+
+
+def _stub_strftime(fmt, *a):
+    vc = HOOKS["vclock"]
+    if vc is not None and not a and _caller_in_proxy():
+        return _real_strftime(fmt, _time_mod.gmtime(vc()))
+    return _real_strftime(fmt, *a)
+
+
+def _stub_urandom(n):
+    h = HOOKS["urandom"]
+    return h(n) if h is not None else _real_urandom(n)
+
+
+def _stub_getpass(prompt="", *a, **k):
+    h = HOOKS["getpass"]
+    return h(prompt) if h is not None else PROMPT_PW            # never block on a prompt
+
+
+def _stub_input(prompt=""):
+    h = HOOKS["input"]
+    return h(prompt) if h is not None else PROMPT_USER
+
+
+_time_mod.time, _time_mod.strftime, os.urandom = _stub_time, _stub_strftime, _stub_urandom
+_getpass_mod.getpass, _builtins.input = _stub_getpass, _stub_input
+
 import vncdotool  # noqa: E402
 
 assert os.path.realpath(os.path.dirname(vncdotool.__file__)) == os.path.realpath(
@@ -36,6 +86,80 @@ rfb.log.msg = lambda *a, **k: None  # type: ignore
 
 class Spin(BaseException):
     """The implementation exceeded its call budget (a spin is an observation)."""
+
+
+import contextlib as _contextlib  # noqa: E402
+
+
+def _vnc_modules():
+    return [m for n, m in list(sys.modules.items()) if (n == "vncdotool" or n.startswith("vncdotool.")) and m is not None]
+
+
+@_contextlib.contextmanager
+def use_reactor(fake):
+    """Everything in the vncdotool package that would reach the global Twisted reactor reaches `fake` instead - however the
+    module got hold of it: a name bound by `from twisted.internet import reactor`, `import twisted.internet.reactor as r`,
+    an attribute lookup `twisted.internet.reactor` at call time, or an import inside a function."""
+    import twisted.internet
+    real = sys.modules.get("twisted.internet.reactor")          # the real reactor, or the fake of an enclosing use_reactor
+    if real is None:
+        from twisted.internet import reactor as real  # noqa
+    saved = []
+    for m in _vnc_modules():
+        for name, val in list(vars(m).items()):
+            if val is real:
+                saved.append((m, name, val))
+                setattr(m, name, fake)
+    had_attr = getattr(twisted.internet, "reactor", None)
+    twisted.internet.reactor = fake
+    sys.modules["twisted.internet.reactor"] = fake
+    try:
+        yield fake
+    finally:
+        sys.modules["twisted.internet.reactor"] = real
+        if had_attr is not None:
+            twisted.internet.reactor = had_attr
+        for m, name, val in reversed(saved):
+            setattr(m, name, val)
+
+
+@_contextlib.contextmanager
+def hook(name, value):
+    """redirect one of the standard-library seams (HOOKS) for the duration of the block"""
+    old = HOOKS[name]
+    HOOKS[name] = value
+    try:
+        yield
+    finally:
+        HOOKS[name] = old
+
+
+@_contextlib.contextmanager
+def fake_endpoints(on_connect):
+    """HostnameEndpoint / UNIXClientEndpoint as the code constructs them - whichever way it imports them - without a
+    network: the constructor only remembers its arguments, connect(factory) calls on_connect(kind, args, factory) and returns
+    what that returns."""
+    from unittest import mock
+    from twisted.internet import endpoints
+
+    def mk(kind):
+        def init(self, reactor_, *a, **k):
+            self._verif = (kind, a, k)
+
+        def connect(self, factory):
+            return on_connect(kind, self._verif[1], factory)
+        return init, connect
+    ps = []
+    for cls, kind in ((endpoints.HostnameEndpoint, "hostname"), (endpoints.UNIXClientEndpoint, "unix")):
+        init, connect = mk(kind)
+        ps += [mock.patch.object(cls, "__init__", init), mock.patch.object(cls, "connect", connect)]
+    for p_ in ps:
+        p_.start()
+    try:
+        yield
+    finally:
+        for p_ in reversed(ps):
+            p_.stop()
 
 
 class Budget:
